@@ -180,8 +180,10 @@ class ValueAxis(Saveable):
 
         # the floor of the quotient can fall short by one due to rounding;
         # a value of the axis itself has to be located at its own index
+        # (also a value that misses the next point of the axis by rounding 
+        # only, e.g. a point of another axis with the same step)
         if (nsni >= -1) and (nsni+1 < self.length):
-            if val >= self.data[nsni+1]:
+            if val >= self.data[nsni+1] - 1.0e-10*abs(self.step):
                 nsni += 1
 
         # if n0 is within bounds calculate distance
